@@ -28,7 +28,10 @@ taddons.context()).  Two monitors, both at the boundary "arguments received by t
   unchanged: the probe receives exactly the typed arguments and nothing escapes from the enter handler.  A fixed
   matrix (7 argument lists x 14 fault kinds) runs first on worker 0; worker 0 also starts two child processes
   (vf/gen/c45_prompt_child.py: a real headless ConsoleMaster, console.command -> prompt -> <enter>), one in UTF-8
-  mode and one with LC_ALL=C PYTHONUTF8=0 where every non-ASCII argument makes the history write fail.
+  mode and one with LC_ALL=C PYTHONUTF8=0 where every non-ASCII argument makes the history write fail.  The same
+  command lines are also bound to a key in a real Keymap and run by Keymap.handle (the other user of CommandExecutor).
+  Argument texts include every blank that str.strip() knows but the lexer does not, at the edges of / as whole arguments.
+  Lines always start with the command name: what a blank in front of the command name means is not stated by the property.
 
 A violation is classified by comparing what the probe received with a model of the known defect mechanisms
 (vf/ref/c45_cmdline.predict_defects); if the model does not reproduce the observation the mechanism is None.
@@ -58,7 +61,8 @@ TECHNIQUE = "differential run of the real command executor against a reference s
 BUDGET = {"quick": (8_000, 16), "thorough": (400_000, 200)}
 WORKERS = {"quick": 2, "thorough": 16}
 REQUIRED = ["quoted_roundtrip", "raw_split.count", "raw_split.value", "ui_history.text_preserved", "ui_history.execute", "ui_history.fresh_manager_agrees",
-            "prompt.execute", "prompt.history_write_fails_non_oserror", "prompt.history_write_fails_oserror", "prompt.history_written"]
+            "prompt.execute", "prompt.keybinding_execute", "prompt.history_write_fails_non_oserror", "prompt.history_write_fails_oserror", "prompt.history_written",
+            "prompt.arg_edge_is_unicode_blank", "prompt.last_arg_ends_in_unicode_blank"]
 RULE = (
     "case = one command line for a probe command taking *args: str (ui: also a fixed two-argument probe). 52%: 1-4 random strings (len<=8 pieces) over "
     "{letters, space, tab, CR, LF, ', \", backslash, 2-char escapes like \\n \\x22 \\u00e9, malformed \\x/\\u, e-acute, astral, "
@@ -70,7 +74,10 @@ RULE = (
     "surrogates, astral and non-ASCII text) submitted through the real ActionBar.execute_command with the history-file write failing "
     "in one of 14 ways (none / natural UnicodeEncodeError / missing confdir / directory in the way / injected OSError subclasses, "
     "ValueError from a closed file, UnicodeEncodeError, RuntimeError, LookupError, failing close); a fixed matrix of these and two "
-    "headless ConsoleMaster child processes (UTF-8 and C locale) run first on worker 0. distinct = (workload, #args, set of character-class "
+    "headless ConsoleMaster child processes (UTF-8 and C locale) run first on worker 0; 45% of these carry an argument whose first/last "
+    "characters (or all) are blanks unknown to the lexer (VT FF FS GS RS US NEL NBSP U+1680 U+2000-200A U+2028/9 U+202F U+205F U+3000) as "
+    "last/first/only/middle argument, 30% go through a key binding (real Keymap.handle) instead of <enter>, with or without the trailing "
+    "space console.command appends; fixed matrix 29 blanks x 6 argument lists x {enter, key binding} first on worker 0. distinct = (workload, #args, set of character-class "
     "features over all args, separator kind / set of key-press step kinds); non-trivial = some argument is empty or contains whitespace, a quote, a "
     "backslash or a non-ASCII character (quoted workload) / some token is quoted or mixed (raw workload)"
 )
@@ -402,6 +409,26 @@ def case_ui(ctx, r, tctx, probe):
 
 FAULTS = ["none", "none", "enoent", "isdir", "os:PermissionError", "os:ENOSPC", "os:BlockingIOError", "os:InterruptedError", "closed-file",
           "write:UnicodeEncodeError", "write:ValueError", "write:RuntimeError", "open:LookupError", "close:OSError", "close:ValueError"]
+# every character str.strip()/str.isspace() treats as blank but the command lexer does not (it separates at " \r\n\t" only)
+UBLANKS = ["\x0b", "\x0c", "\x1c", "\x1d", "\x1e", "\x1f", "\x85", "\xa0", "\u1680"] + [chr(c) for c in range(0x2000, 0x200B)] + ["\u2028", "\u2029", "\u202f", "\u205f", "\u3000"]
+assert all(c.isspace() and c not in " \r\n\t" for c in UBLANKS)
+
+
+def blank_matrix(c):
+    """Argument lists with the blank c as last / only / first / middle edge character and as a whole argument."""
+    return [["100" + c], [c], [c + "x", "mid" + c, "z"], ["a", c], ["a" + c + c, c + "b" + c], [c + c, "end"]]
+
+
+def gen_blank_edge_arg(r):
+    b = lambda: "".join(r.choice(UBLANKS) for _ in range(r.choice([1, 1, 2])))  # noqa: E731
+    w = lambda: "".join(r.choice(PLAIN) for _ in range(r.choice([1, 2, 3])))  # noqa: E731
+    return r.choice([lambda: w() + b(), lambda: b() + w(), b, lambda: b() + w() + b(), lambda: w() + b() + w()])()
+
+
+def has_blank_edge(args):
+    return any(a and (a[0] in UBLANKS or a[-1] in UBLANKS) for a in args)
+
+
 PROMPT_MATRIX = [["plain"], ["two words", "it's"], ["\udc80"], ["a \udcff b", "x"], ["\u65e5\u672c \u8a9e"], ["\U0001f600 astral", ""], ["caf\u00e9"]]
 SURR = ["\udc80", "\udcff", "\ud800", "a\udce9b"]
 
@@ -499,10 +526,30 @@ def prompt_submit(tctx, probe, confroot, text, kind):
     return received, escaped, written, len(probe.calls)
 
 
-def prompt_case(ctx, tctx, probe, confroot, args, kind, typed, sep=" "):
+def keybinding_submit(tctx, probe, text):
+    """Bind the command line to a key in a fresh real Keymap and press it (Keymap.handle -> CommandExecutor)."""
+    from mitmproxy.tools.console import keymap
+
+    km = keymap.Keymap(tctx.master)
+    km.add("f5", text, ["global"])
+    probe.calls.clear()
+    escaped = None
+    try:
+        unhandled = km.handle("global", "f5")
+        if unhandled is not None:
+            raise Inconclusive("key binding not found")
+    except Inconclusive:
+        raise
+    except Exception as e:  # noqa
+        escaped = e
+    received = tuple(probe.calls[0]) if len(probe.calls) == 1 else None
+    return received, escaped, False, len(probe.calls)
+
+
+def prompt_case(ctx, tctx, probe, confroot, args, kind, typed, sep=" ", via="enter", trailing=""):
     from mitmproxy.tools.console.commander import commander
 
-    line = sep.join(command_lexer.quote(x) for x in ["probe.cmd", *args])
+    line = sep.join(command_lexer.quote(x) for x in ["probe.cmd", *args]) + trailing  # console.command appends one space
     if typed:
         edit = commander.CommandEdit(tctx.master, "")
         for ch_ in line:
@@ -513,13 +560,21 @@ def prompt_case(ctx, tctx, probe, confroot, args, kind, typed, sep=" "):
     if text != line:
         ctx.violation("prompt-typed-text-differs", {"line": line, "text": text, "typed": typed}, None)
         return
-    received, escaped, written, ncalls = prompt_submit(tctx, probe, confroot, text, kind)
-    ctx.count("prompt.execute")
-    exp = expected_write_failure(kind, text)
-    ctx.count({"non-oserror": "prompt.history_write_fails_non_oserror", "oserror": "prompt.history_write_fails_oserror", None: "prompt.history_write_expected_ok"}[exp])
-    if written:
-        ctx.count("prompt.history_written")
-    extra = {"history_fault": kind, "typed": typed}
+    if has_blank_edge(args):
+        ctx.count("prompt.arg_edge_is_unicode_blank")
+        if args[-1] and args[-1][-1] in UBLANKS:
+            ctx.count("prompt.last_arg_ends_in_unicode_blank")
+    if via == "key":
+        received, escaped, written, ncalls = keybinding_submit(tctx, probe, text)
+        ctx.count("prompt.keybinding_execute")
+    else:
+        received, escaped, written, ncalls = prompt_submit(tctx, probe, confroot, text, kind)
+        ctx.count("prompt.execute")
+        exp = expected_write_failure(kind, text)
+        ctx.count({"non-oserror": "prompt.history_write_fails_non_oserror", "oserror": "prompt.history_write_fails_oserror", None: "prompt.history_write_expected_ok"}[exp])
+        if written:
+            ctx.count("prompt.history_written")
+    extra = {"history_fault": kind, "typed": typed, "via": via}
     if escaped is not None:
         ctx.violation("prompt-enter-raises", {"line": line, "args": args, "exc": repr(escaped)[:300], "command_called": ncalls, **extra}, None)
         return
@@ -562,6 +617,11 @@ def prompt_children(ctx):
             ctx.seen("prompt_console_locales", rec["locale_encoding"])
 
 
+def r_trailing(args, c):
+    """Deterministic choice for the fixed matrix: the space console.command appends, for half of the entries."""
+    return " " if (len(args) + ord(c)) % 2 else ""
+
+
 def run(ctx):
     tctx, cm, probe = make_manager()
     confroot = tempfile.mkdtemp(prefix="c45-conf-")
@@ -574,6 +634,11 @@ def run(ctx):
                 for kind in FAULTS[1:]:
                     ctx.guard(prompt_case, ctx, tctx, probe, confroot, args, kind, False, what=f"prompt matrix {kind}")
                     ctx.count("prompt.fixed_matrix")
+            for c in UBLANKS:  # fixed matrix: every non-lexer blank as edge character / whole argument, prompt <enter> and key binding
+                for args in blank_matrix(c):
+                    for via in ("enter", "key"):
+                        ctx.guard(prompt_case, ctx, tctx, probe, confroot, args, "none", False, " ", via, r_trailing(args, c), what=f"blank matrix U+{ord(c):04X} {via}")
+                        ctx.count("prompt.fixed_matrix_blanks")
         for i in ctx.cases():
             r = ctx.rng
             wl = r.random()
@@ -587,12 +652,16 @@ def run(ctx):
                     return "".join(r.choice(PLAIN + [" ", "'", '"']) for _ in range(r.choice([0, 1, 2, 4])))
 
                 args = [parg() for _ in range(r.choice([1, 1, 2, 3]))]
+                if r.random() < 0.45:  # arguments whose first/last characters are blanks the lexer does not know
+                    for pos in {r.choice([len(args) - 1, len(args) - 1, 0, r.randrange(len(args))])}:
+                        args[pos] = gen_blank_edge_arg(r)
                 kind = r.choice(FAULTS)
                 typed = r.random() < 0.5
-                ctx.guard(prompt_case, ctx, tctx, probe, confroot, args, kind, typed, " " if r.random() < 0.8 else gen_sep(r), what="prompt")
+                via = "key" if r.random() < 0.3 else "enter"
+                ctx.guard(prompt_case, ctx, tctx, probe, confroot, args, kind, typed, " " if r.random() < 0.8 else gen_sep(r), via, r.choice(["", "", " ", "  ", "\n"]), what="prompt")
                 f = set().union(*(features(a) for a in args))
                 surr = any(0xD800 <= ord(c) <= 0xDFFF for a in args for c in a)
-                ctx.case(("prompt", kind, typed, surr, tuple(sorted(f & {"empty", "sp", "sq", "dq", "uni", "astral"}))), nontrivial=True, sample={"args": args, "history_fault": kind, "typed": typed})
+                ctx.case(("prompt", via, kind if via == "enter" else "-", typed, surr, has_blank_edge(args), tuple(sorted(f & {"empty", "sp", "sq", "dq", "uni", "astral"}))), nontrivial=True, sample={"args": args, "history_fault": kind, "typed": typed})
             elif wl < 0.23:
                 case_ui(ctx, r, tctx, probe)
             elif wl < 0.75:
